@@ -19,7 +19,7 @@ from hypothesis import strategies as st  # noqa: E402
 
 from adaptix import DebugTrail, ProviderNotFoundError, Retort, dumper, loader  # noqa: E402
 from adaptix.load_error import LoadError, TypeLoadError  # noqa: E402
-from props.c04_only_loaderror import build_layouts, build_provs, model_names  # noqa: E402
+from props.c04_only_loaderror import _class_object_for_model, build_layouts, build_provs, model_names  # noqa: E402
 from props.c04_only_loaderror import PROVS  # noqa: E402
 from vkit import codec, soup, tspec  # noqa: E402
 
@@ -301,6 +301,15 @@ def check_case(ctx: runner.Ctx, case):  # noqa: C901, PLR0912
         # user loader that raises a non-LoadError; the plain ExceptionGroup it then raises is not a "case does not match" for the
         # enclosing Union, while DISABLE / FIRST stopped at the LoadError and went on to the next case
         ctx.violation("all_mode_reaches_unexpected_error_behind_load_error", ("union_falls_through_only_in_disable_and_first",), case,
+                      f"{head}: {[(n, k, describe(o[1]) if k == 'err' else repr(o[1])[:200]) for n, k, o in zip(NAMES, kinds, outs)]}")
+        return
+    if case["dir"] == "load" and failure and _class_object_for_model(t, case["datum"]) and \
+            any(k == "err" and any(isinstance(x, TypeError) and not isinstance(x, LoadError) for x in all_nodes(o[1]))
+                for k, o in zip(kinds, outs)):
+        # known finding (see known_findings.json, C04-class-object-as-model-mapping): a class object where the container of a
+        # model is expected passes the duck-typed mapping / sequence test of the generated loader and leaks TypeError from
+        # whichever lookup variant a debug mode uses
+        ctx.violation("class_object_used_as_model_container", (case["dir"],), case,
                       f"{head}: {[(n, k, describe(o[1]) if k == 'err' else repr(o[1])[:200]) for n, k, o in zip(NAMES, kinds, outs)]}")
         return
     if len(set(kinds)) != 1:
